@@ -236,24 +236,25 @@ theorem appendToLast_isEmpty (cl : List (List Char)) (sfx : List Char) (hne : cl
 /-- `&sfx` against an outer compound that ends in a class: the class name is extended -/
 theorem Compound.print_append_suffix_class (cm : Bool) (e : Option (List Char)) (p cl : List (List Char))
     (i : Option (List Char)) (sfx : List Char) (hne : cl ≠ []) (hall : ∀ x ∈ cl, x ≠ []) :
-    ∃ ap, Compound.append (.mk false e p cl i [] []) (.mk false (some sfx) [] [] none [] []) = some ap ∧
+    ∀ k, ∃ ap, Compound.appendWith k (.mk false e p cl i [] []) (.mk false (some sfx) [] [] none [] []) = some ap ∧
       Compound.print cm ap = Compound.print cm (.mk false e p cl i [] []) ++ sfx := by
+  intro k
   have hcl : cl.isEmpty = false := by cases cl <;> simp_all
   have h2 := appendToLast_isEmpty cl sfx hne
   have h3 := printClasses_appendToLast cl sfx hne hall
   cases e with
   | none =>
-    refine ⟨_, by simp [Compound.append, Compound.elem, Compound.appendSuffix, hcl]; rfl, ?_⟩
+    refine ⟨_, by simp [Compound.appendWith, Compound.mergeInto, mergeId, Compound.elem, Compound.appendSuffix, hcl]; rfl, ?_⟩
     simp [Compound.print, h3, printAttrs, Pseudo.printList, printPlaceholders]
   | some e =>
     by_cases hs : elemShown e p cl i 0 = true
-    · refine ⟨_, by simp [Compound.append, Compound.elem, Compound.appendSuffix, hcl, hs]; rfl, ?_⟩
+    · refine ⟨_, by simp [Compound.appendWith, Compound.mergeInto, mergeId, Compound.elem, Compound.appendSuffix, hcl, hs]; rfl, ?_⟩
       have hs' : elemShown e (p ++ []) (appendToLast cl sfx ++ []) i 0 = true := by
         simp [elemShown, hcl, h2] at hs ⊢; exact hs
       simp [Compound.print, h3, printAttrs, Pseudo.printList, printPlaceholders, hs] at hs' ⊢
       simp [hs']
     · have hs0 : elemShown e p cl i 0 = false := by simpa using hs
-      refine ⟨_, by simp [Compound.append, Compound.elem, Compound.appendSuffix, hcl, hs0]; rfl, ?_⟩
+      refine ⟨_, by simp [Compound.appendWith, Compound.mergeInto, mergeId, Compound.elem, Compound.appendSuffix, hcl, hs0]; rfl, ?_⟩
       simp [Compound.print, h3, printAttrs, Pseudo.printList, printPlaceholders, hs0]
 
 end Sel
@@ -262,20 +263,20 @@ namespace Sel
 
 /-! ### `:not(&)` under the specification flags -/
 
-theorem Compound.append_empty (cm : Bool) (c : Compound) (hb : c.backref = false) :
-    ∃ ap, Compound.append c (.mk false none [] [] none [] []) = some ap ∧
+theorem Compound.append_empty (cm : Bool) (k : Bool) (c : Compound) (hb : c.backref = false) :
+    ∃ ap, Compound.appendWith k c (.mk false none [] [] none [] []) = some ap ∧
       Compound.print cm ap = Compound.print cm c := by
   cases c with
   | mk b e p cl i a ps =>
     simp only [Compound.backref] at hb
     subst hb
     cases e with
-    | none => exact ⟨_, by simp [Compound.append, Compound.elem]; rfl, by simp [Compound.print]⟩
+    | none => exact ⟨_, by simp [Compound.appendWith, Compound.mergeInto, mergeId, Compound.elem]; rfl, by simp [Compound.print]⟩
     | some e =>
       by_cases hs : elemShown e p cl i ps.length = true
-      · exact ⟨_, by simp [Compound.append, Compound.elem, hs]; rfl, by simp [Compound.print, hs]⟩
+      · exact ⟨_, by simp [Compound.appendWith, Compound.mergeInto, mergeId, Compound.elem, hs]; rfl, by simp [Compound.print, hs]⟩
       · have hs0 : elemShown e p cl i ps.length = false := by simpa using hs
-        exact ⟨_, by simp [Compound.append, Compound.elem, hs0]; rfl, by simp [Compound.print, hs0]⟩
+        exact ⟨_, by simp [Compound.appendWith, Compound.mergeInto, mergeId, Compound.elem, hs0]; rfl, by simp [Compound.print, hs0]⟩
 
 theorem roundRobinAux_singleton {α : Type} (row : List α) :
     ∀ fuel, row.length ≤ fuel → roundRobinAux fuel [row] = row := by
@@ -304,23 +305,22 @@ theorem Selector.printList_map_congr (cm : Bool) (f : Selector → Selector) :
     simp only [List.map_cons] at ih ⊢
     simp only [Selector.printList, ih, h s (List.mem_cons_self ..)]
 
-theorem resolveOneList_spec_amp (cm : Bool) :
+theorem resolveOneList_spec_amp (cm : Bool) (q : NestQuirks) (hq : q.ampViaUnify = false) :
     ∀ ctx : SelSet, (∀ s ∈ ctx, s.compound.backref = false) →
-      ∃ f : Selector → Selector, resolveOneList nestSpec (.mk false none [] [] none [] []) ctx = ctx.map f ∧
+      ∃ f : Selector → Selector, resolveOneList q (.mk false none [] [] none [] []) ctx = ctx.map f ∧
         ∀ s ∈ ctx, Selector.print cm (f s) = Selector.print cm s := by
   intro ctx h
-  refine ⟨fun s => match s.compound.append (.mk false none [] [] none [] []) with
+  refine ⟨fun s => match Compound.appendWith (!q.appendIdLastWins) s.compound (.mk false none [] [] none [] []) with
     | some ap => s.setCompound ap | none => s, ?_, ?_⟩
   · induction ctx with
     | nil => rfl
     | cons s ss ih =>
-      obtain ⟨ap, hap, _⟩ := Compound.append_empty cm s.compound (h s (List.mem_cons_self ..))
+      obtain ⟨ap, hap, _⟩ := Compound.append_empty cm (!q.appendIdLastWins) s.compound (h s (List.mem_cons_self ..))
       have := ih (fun x hx => h x (List.mem_cons_of_mem _ hx))
-      have hq : nestSpec.ampViaUnify = false := rfl
       rw [resolveOneList, this]
-      simp [resolveOne, hap, hq]
+      simp only [resolveOne, hap, hq, Bool.false_eq_true, if_false, List.map_cons, List.singleton_append]
   · intro s hs
-    obtain ⟨ap, hap, hp⟩ := Compound.append_empty cm s.compound (h s hs)
+    obtain ⟨ap, hap, hp⟩ := Compound.append_empty cm (!q.appendIdLastWins) s.compound (h s hs)
     simp only [hap]
     exact by simpa using Selector.print_setCompound_of cm s ap [] (by simpa using hp)
 
